@@ -340,12 +340,19 @@ func checkClusterNodesParser(c *Ctx, rule string) {
 		return
 	}
 	// fields := strings.Fields(line)
+	// (the per-line work may live in a helper of the parser)
 	var fields ssa.Value
-	eachInstr(fn, func(_ *ssa.BasicBlock, _ int, in ssa.Instruction) {
-		if call, ok := in.(*ssa.Call); ok && isCallTo(call, "strings.Fields") {
-			fields = call
+	host := fn
+	for _, pf := range append([]*ssa.Function{fn}, staticCalleesDeep(fn, 2)...) {
+		if fields != nil || pf.Blocks == nil || !isModFn(pf) {
+			continue
 		}
-	})
+		eachInstr(pf, func(_ *ssa.BasicBlock, _ int, in ssa.Instruction) {
+			if call, ok := in.(*ssa.Call); ok && isCallTo(call, "strings.Fields") {
+				fields, host = call, pf
+			}
+		})
+	}
 	if fields == nil {
 		c.Undecided(rule, "CLUSTER NODES fields", fn.Pos(), "the parser does not split lines into fields with strings.Fields")
 		return
@@ -371,7 +378,7 @@ func checkClusterNodesParser(c *Ctx, rule string) {
 			}, 2)
 			// a helper that is handed the column: its string parameter
 			if !fromLine {
-				if prm, isPrm := call.Call.Args[0].(*ssa.Parameter); isPrm && pf != fn {
+				if prm, isPrm := call.Call.Args[0].(*ssa.Parameter); isPrm && pf != fn && pf != host {
 					fromLine = isStringVal(prm)
 				}
 			}
@@ -382,10 +389,10 @@ func checkClusterNodesParser(c *Ctx, rule string) {
 		})
 	}
 	// the field positions may be read by a helper that receives the split line: follow the fields value into it
-	ffn := fn
-	eachInstr(fn, func(_ *ssa.BasicBlock, _ int, in ssa.Instruction) {
+	ffn := host
+	eachInstr(host, func(_ *ssa.BasicBlock, _ int, in ssa.Instruction) {
 		call, ok := in.(*ssa.Call)
-		if !ok || ffn != fn {
+		if !ok || ffn != host {
 			return
 		}
 		g := calleeFn(call.Common())
